@@ -172,7 +172,9 @@ func runC02(c *runCtx) {
 		copy(b, "SELECT 1")
 		return b
 	}
-	for _, ep := range []string{"tokenize", "tokenizectx"} {
+	limitEPs := []string{"tokenize", "tokenizectx", "tokenize:dialect", "tokenize:keywords", "tokenizectx:keywords", "tokenize:pool", "tokenizectx:pool",
+		"tokenize:reused", "tokenize:setdialect", "parse", "parsebytes", "parsectx", "validate"}
+	for _, ep := range limitEPs {
 		for _, d := range []int{-1, 0, 1} {
 			ans := pool.Run(ep, mk(maxSize+d), 120*time.Second)
 			res.count(fmt.Sprintf("size|%s|%d", ep, d), true)
@@ -192,7 +194,7 @@ func runC02(c *runCtx) {
 		return []byte(strings.Repeat("1 ", n))
 	}
 	offs := []int{-1, 0, 1, 2, 448, 449, 1025}
-	for _, ep := range []string{"tokenize", "tokenizectx"} {
+	for _, ep := range limitEPs[:9] {
 		for _, d := range offs {
 			ans := pool.Run(ep, mkTok(maxTok+d), 300*time.Second)
 			res.count(fmt.Sprintf("tokens|%s|%d", ep, d), true)
